@@ -36,6 +36,11 @@ class TrajRec(Model):
             return []
         if name in self.extra:
             return self.extra[name]
+        if name in FieldSetStub.FIELDS:
+            # the record's value for a field of its field set (None = a required value that was never set)
+            if name == 'f_scalar' and self.missing_required:
+                return None
+            return 'value-of-' + name
         raise Unsupported('Trajectory.' + name + ' (opaque at store level)')
 
     def py_setattr(self, I, name, val):
